@@ -3,6 +3,7 @@ package props
 import (
 	"encoding/json"
 	"fmt"
+	"reflect"
 	"sort"
 	"strings"
 	"testing"
@@ -330,6 +331,77 @@ func TestC08(t *testing.T) {
 					}
 				}
 				answers = append(answers, a)
+			}
+			// the conditions the mapper builds from an object and an explicit list of its fields
+			// ("equal to this object on these columns"): one == per listed column, whatever the
+			// field holds - also the type's default
+			if len(order) > 0 && rapid.IntRange(0, 2).Draw(t, "equalitycond") == 0 {
+				probeU := order[rapid.IntRange(0, len(order)-1).Draw(t, "probe")]
+				probe := rows[probeU].Clone()
+				ncols := rapid.IntRange(1, 3).Draw(t, "eqcols")
+				var cols []int
+				seenCol := map[int]bool{}
+				for i := 0; i < ncols; i++ {
+					ci := rapid.IntRange(0, len(tb.Cols)-1).Draw(t, "eqcol")
+					if !seenCol[ci] {
+						seenCol[ci] = true
+						cols = append(cols, ci)
+					}
+				}
+				if rapid.Bool().Draw(t, "eqdefault") {
+					c := tb.Cols[cols[0]]
+					switch c.Shape() {
+					case kit.ShScalar:
+						probe[c.Name] = kit.Scalar(kit.ZeroAtom(c.Key.T))
+					case kit.ShMap:
+						probe[c.Name] = kit.EmptyMap()
+					default:
+						probe[c.Name] = kit.EmptySet()
+					}
+				}
+				m := w.ModelFromRow(tb.Name, probeU, probe)
+				info, err := w.DBModel.NewModelInfo(m)
+				if err != nil {
+					t.Fatalf("harness: %v", err)
+				}
+				var ptrs []interface{}
+				var want []kit.Cond
+				var names []string
+				for _, ci := range cols {
+					ptrs = append(ptrs, reflect.ValueOf(m).Elem().Field(ci+1).Addr().Interface())
+					want = append(want, kit.Cond{Col: tb.Cols[ci].Name, Fn: "==", Val: probe[tb.Cols[ci].Name].Clone()})
+					names = append(names, tb.Cols[ci].Name)
+				}
+				ref := refdb.Exec(base, kit.State{tb.Name: rows}, []kit.Op{{Op: "select", Table: tb.Name, Where: want}}, nil)
+				conds, err := w.DBModel.Mapper.NewEqualityCondition(info, ptrs...)
+				if err != nil {
+					if ref.FailedAt < 0 && ref.Results[0].MayReject == "" {
+						kit.Fail(t, "C08", "select.spurious-error", kase, "config %s: NewEqualityCondition over the fields %v of %s: %v", cfg.name, names, probe.Key(), err)
+					}
+				} else if ref.FailedAt < 0 {
+					if len(conds) != len(cols) {
+						kit.Fail(t, "C08", "select.wrong-rows", kase, "config %s: NewEqualityCondition over the %d fields %v of %s gives %d conditions: %s", cfg.name, len(cols), names, probe.Key(), len(conds), kit.MustJSON(conds))
+					}
+					got, err := rc.RowsByCondition(conds)
+					if err != nil {
+						if ref.Results[0].MayReject == "" {
+							kit.Fail(t, "C08", "select.spurious-error", kase, "config %s: the conditions %s built by NewEqualityCondition are rejected: %v", cfg.name, kit.MustJSON(conds), err)
+						}
+					} else {
+						exp := map[string]bool{}
+						for _, r := range ref.Results[0].Rows {
+							exp[r["_uuid"].K[0].S] = true
+						}
+						g := map[string]bool{}
+						for u := range got {
+							g[u] = true
+						}
+						if fmt.Sprint(g) != fmt.Sprint(exp) {
+							kit.Fail(t, "C08", "select.wrong-rows", kase, "config %s: the conditions %s built by NewEqualityCondition over the fields %v of %s select %v, the rows equal to it on these columns are %v", cfg.name, kit.MustJSON(conds), names, probe.Key(), g, exp)
+						}
+					}
+				}
+				kit.Label("C08", "equality-condition-over-listed-fields")
 			}
 			// reading must leave every index in agreement with a scan (C05's oracle)
 			icfg := indexCfg{Schema: cfg.schema}
